@@ -31,7 +31,11 @@ func (s Scenario) String() string {
 	if s.Final != nil {
 		f = fmt.Sprintf(" then recover(%s,%s)", s.Final.Common, s.Final.Channel)
 	}
-	return fmt.Sprintf("log=%v server=%+v envelope=%q bot=%v v0=%d lazy=%v untracked=%v containers=%d faults=%v events=%v%s", s.World.Log, s.World.Server, s.World.Envelope, s.World.Bot, s.World.V0, s.World.Lazy, s.World.Untracked, s.World.Containers, s.World.Faults, s.Hist, f)
+	late := ""
+	if len(s.World.LateHash) > 0 {
+		late = fmt.Sprintf(" late_hash=%v", s.World.LateHash)
+	}
+	return fmt.Sprintf("log=%v server=%+v envelope=%q bot=%v v0=%d lazy=%v untracked=%v containers=%d faults=%v%s events=%v%s", s.World.Log, s.World.Server, s.World.Envelope, s.World.Bot, s.World.V0, s.World.Lazy, s.World.Untracked, s.World.Containers, s.World.Faults, late, s.Hist, f)
 }
 
 // Play runs a scenario on a fresh world: start-up against an empty server log (the client is in
@@ -84,6 +88,9 @@ func Alphabet(cfg WorldCfg, log []Entry, midTriggers bool) []Event {
 			}
 		next:
 			for i := range log {
+				if log[i].Affected() {
+					continue
+				}
 				for _, c := range cur {
 					if c == i {
 						continue next
